@@ -1,0 +1,89 @@
+//go:build verif
+
+package server
+
+import (
+	"net/http"
+	"net/http/httputil"
+)
+
+// Verification hooks, compiled in only with -tags verif. A harness installs the
+// function variables below; while they are nil every hook is a no-op.
+
+var (
+	// VerifYield is called at points where the calling goroutine holds no lock.
+	// It may block, which lets a controller decide the interleaving.
+	VerifYield func(point string, objs ...any)
+
+	// VerifEmit is called after a state change, usually while the lock that
+	// protects the change is still held. It must never block.
+	VerifEmit func(event string, objs ...any)
+
+	// VerifTransport may adjust the transport each target uses to reach its
+	// backend (e.g. to dial over an in-memory network).
+	VerifTransport func(target *Target, transport *http.Transport)
+)
+
+func verifYield(point string, objs ...any) {
+	if f := VerifYield; f != nil {
+		f(point, objs...)
+	}
+}
+
+func verifEmit(event string, objs ...any) {
+	if f := VerifEmit; f != nil {
+		f(event, objs...)
+	}
+}
+
+func verifAdjustProxy(target *Target) {
+	f := VerifTransport
+	if f == nil {
+		return
+	}
+	if rp, ok := target.proxyHandler.(*httputil.ReverseProxy); ok {
+		if tr, ok := rp.Transport.(*http.Transport); ok {
+			f(target, tr)
+		}
+	}
+}
+
+// Read-only accessors: the package is internal and its fields unexported.
+
+func VerifBuildHandler(s *Server) http.Handler { return s.buildHandler() }
+
+func VerifServiceName(s *Service) string { return s.name }
+
+func VerifServiceOptions(s *Service) ServiceOptions { return s.options }
+
+func VerifTargetOptions(s *Service) TargetOptions { return s.targetOptions }
+
+func VerifServiceLoadBalancers(s *Service) (active, rollout *LoadBalancer) {
+	return s.active, s.rollout
+}
+
+func VerifLoadBalancerTargets(lb *LoadBalancer) (all, healthy []string) {
+	lb.lock.Lock()
+	defer lb.lock.Unlock()
+	return lb.all.Names(), lb.healthy.Names()
+}
+
+func VerifTargetInflight(t *Target) int {
+	t.inflightLock.Lock()
+	defer t.inflightLock.Unlock()
+	return len(t.inflight)
+}
+
+// VerifRotationLocked reads the rotation without taking the load balancer's
+// lock: only for use from inside the "rotation" emit, which runs under it.
+func VerifRotationLocked(lb *LoadBalancer) []string { return lb.healthy.Names() }
+
+func VerifTargetName(t *Target) string { return t.Target() }
+
+func VerifHealthCheckEndpoint(hc *HealthCheck) string { return hc.endpoint.Host }
+
+func VerifRouterService(r *Router, name string) *Service { return r.serviceForName(name) }
+
+func VerifRouterServiceForHost(r *Router, host string) *Service { return r.serviceForHost(host) }
+
+func VerifSaveState(r *Router) error { return r.saveStateSnapshot() }
